@@ -47,6 +47,7 @@ type Frame struct {
 	presiteName string // site label of this activation's assumed preconditions (skolem lookup)
 	visited  map[*ssa.Range]*Term // ghost visited set per map range at loop head
 	curKey   map[*ssa.Range]*Term
+	copyUnfold int // >0: nested copy relations are unfolded this many more levels (assumption side only)
 	curBlock *ssa.BasicBlock // block being executed (at-call clauses look up the enclosing loop)
 }
 
